@@ -1,10 +1,10 @@
 package checks
 
 import (
-	"time"
 	"fmt"
 	"os"
 	"strings"
+	"time"
 
 	"github.com/openfga/openfga/internal/verifh/core"
 	"github.com/openfga/openfga/internal/verifh/e2"
